@@ -120,6 +120,7 @@ class SourceDriver:
         return [self.ep.ready]
 
     def step(self, v, c):
+        go = self.sched.next()      # one schedule decision per cycle (the schedule is cycle-based)
         if self.offering and v[self.ep.ready]:
             self.idx += 1
             self.offering = False
@@ -127,7 +128,7 @@ class SourceDriver:
         if self.offering:
             return None
         ep = self.ep
-        if self.idx < len(self.tokens) and self.sched.next():
+        if self.idx < len(self.tokens) and go:
             t = self.tokens[self.idx]
             w = {ep.valid: 1, ep.first: t["first"], ep.last: t["last"]}
             for s, x in zip(self.pay, t["pay"]):
@@ -219,44 +220,46 @@ def tok_of(entry):
 
 
 class Scoreboard:
-    """Ends the run when everything the model expects has been delivered, or when nothing has
-    moved for `stall_bound` cycles of the cooperative suffix."""
-    def __init__(self, drivers, in_mons, out_mons, expected_count, coop_from, stall_bound):
+    """Ends the run when everything the model expects has been delivered, or (force) when nothing has
+    moved for `stall_bound` cycles of the cooperative suffix, or when the DUT emits far more than
+    the model expects (runaway)."""
+    def __init__(self, drivers, in_mons, out_mons, expected_count, coop_from, stall_bound, runaway=64):
         self.drivers, self.in_mons, self.out_mons = drivers, in_mons, out_mons
         self.expected_count = expected_count
         self.coop_from, self.stall_bound = coop_from, stall_bound
         self.stalled = None
+        self.runaway = runaway
+        self.ran_away = False
+        self.force = False
+        self._done = False
         self._last_total = -1
         self._last_move = 0
         self._n_in = -1
         self._exp = 0
-        self.c = 0
 
     def signals(self):
         return []
 
     def step(self, v, c):
-        self.c = c
-        total = sum(len(m.log) for m in self.in_mons) + sum(len(m.log) for m in self.out_mons)
-        if total != self._last_total:
-            self._last_total = total
+        n_in = sum(len(m.log) for m in self.in_mons)
+        n_out = sum(len(m.log) for m in self.out_mons)
+        if n_in + n_out != self._last_total:
+            self._last_total = n_in + n_out
             self._last_move = c
+        if n_in != self._n_in:
+            self._n_in = n_in
+            self._exp = self.expected_count()
+        drivers_done = all(d.done() for d in self.drivers)
+        self._done = drivers_done and n_out >= self._exp
+        if self._done or self.force:
+            return None
+        if n_out > self._exp + self.runaway:
+            self.ran_away = True
+            self.force = True
+        elif c >= self.coop_from and c - max(self._last_move, self.coop_from) > self.stall_bound:
+            self.stalled = {"cycle": c, "last_move": self._last_move}
+            self.force = True
         return None
 
     def done(self):
-        if self.stalled:
-            return True
-        if not all(d.done() for d in self.drivers):
-            pending = True
-        else:
-            n_in = sum(len(m.log) for m in self.in_mons)
-            if n_in != self._n_in:
-                self._n_in = n_in
-                self._exp = self.expected_count()
-            pending = sum(len(m.log) for m in self.out_mons) < self._exp
-        if not pending:
-            return True
-        if self.c >= self.coop_from and self.c - max(self._last_move, self.coop_from) > self.stall_bound:
-            self.stalled = {"cycle": self.c, "last_move": self._last_move}
-            return True
-        return False
+        return self._done or self.force
